@@ -543,6 +543,10 @@ class Exec:
             v = self.operand(st, fr, t.data['op'])
             if isinstance(v, BoolV):
                 term = z3.If(v.t, z3.BitVecVal(1, 64), z3.BitVecVal(0, 64))
+            elif not isinstance(v, BV):
+                # a scrutinee that is not a scalar (the value of a havocked call that should have been one): unconstrained, path marked
+                st.havoc.append('switch on an uninterpreted value'); self.unhandled['switch on an uninterpreted value'] = self.unhandled.get('switch on an uninterpreted value', 0) + 1
+                term = z3.BitVec(st.fresh_name('switch'), 64)
             else:
                 term = v.t
             w = term.size()
